@@ -95,6 +95,76 @@ def variants(rng, base):
         yield "omitted%d" % len(om), v
 
 
+def strategy_nets(rng):
+    """Small networks in which one unknown point (no approximate coordinates given) is determined by exactly one
+    of the documented combinations of determining elements (manual, 'Approximate coordinates': outer bearing,
+    distance, inner angle; similarity transformation for chains; heights from height differences / zenith
+    angle + slope distance; vectors), plus a little redundancy.  yield (name, net)."""
+    def base(dim=2):
+        net = netgen.Net(); net.dim = dim
+        R = float(rng.uniform(200, 2000))
+        ang = sorted(rng.uniform(0, 2 * math.pi, 4))
+        for k, a in enumerate(ang):
+            r = R * float(rng.uniform(0.7, 1.3))
+            net.points["F%d" % k] = netgen.Pt("F%d" % k, r * math.cos(a), r * math.sin(a),
+                                              float(rng.uniform(-20, 20)) if dim == 3 else 0.0, "fixed",
+                                              "fixed" if dim == 3 else "none")
+        net.points["P"] = netgen.Pt("P", float(rng.uniform(-0.3, 0.3)) * R, float(rng.uniform(-0.3, 0.3)) * R,
+                                    float(rng.uniform(-20, 20)) if dim == 3 else 0.0, "free", "free" if dim == 3 else "none",
+                                    give_xy=False, give_z=False)
+        net.params["sigma_apr"] = 10.0
+        return net
+    def station(net, s, dirs=(), dists=(), sdists=(), zangles=(), angles=()):
+        cl = netgen.Cluster("obs", s)
+        cl.zero = float(rng.uniform(0, 400))
+        for t in dirs:
+            cl.obs.append(netgen.Obs("direction", s, t, stdev=10.0))
+        for t in dists:
+            cl.obs.append(netgen.Obs("distance", s, t, stdev=5.0))
+        for t in sdists:
+            cl.obs.append(netgen.Obs("s-distance", s, t, stdev=5.0))
+        for t in zangles:
+            cl.obs.append(netgen.Obs("z-angle", s, t, stdev=10.0))
+        for (a, b) in angles:
+            cl.obs.append(netgen.Obs("angle", s, bs=a, fs=b, stdev=10.0))
+        net.clusters.append(cl)
+        return cl
+    def finish(net, kind):
+        net.kind = "strategy-" + kind
+        for cl, o in net.all_obs():
+            o.true = netgen.model_value(net, cl, o); o.val = o.true
+        return kind, net
+    n = base(); station(n, "F0", dirs=("F1", "P")); station(n, "F1", dirs=("F0", "P")); station(n, "F2", dirs=("F3", "P"))
+    yield finish(n, "forward-intersection")
+    n = base(); station(n, "F0", dists=("P",)); station(n, "F1", dists=("P",)); station(n, "F2", dists=("P",)); station(n, "F3", dists=("P",))
+    yield finish(n, "distance-distance")
+    n = base(); station(n, "P", dirs=("F0", "F1", "F2", "F3"))
+    yield finish(n, "resection-directions")
+    n = base(); station(n, "P", angles=(("F0", "F1"), ("F1", "F2"), ("F2", "F3")))
+    yield finish(n, "inner-angles")
+    n = base(); station(n, "F0", dirs=("F1", "P"), dists=("P",)); station(n, "F2", dists=("P",))
+    yield finish(n, "polar")
+    n = base()
+    R = max(abs(q.E) + abs(q.N) for q in n.points.values())
+    n.points["Q"] = netgen.Pt("Q", n.points["P"].E + 0.2 * R, n.points["P"].N - 0.15 * R, 0.0, "free", "none", give_xy=False)
+    station(n, "F0", dirs=("F1", "P"), dists=("P",)); station(n, "P", dirs=("F0", "Q"), dists=("Q",))
+    station(n, "Q", dirs=("P", "F2"), dists=("F2",)); station(n, "F2", dirs=("Q", "F3"))
+    yield finish(n, "traverse")
+    n = base(3); station(n, "F0", dirs=("F1", "P"), sdists=("P",), zangles=("P",)); station(n, "F2", dirs=("F3", "P"), sdists=("P",), zangles=("P",))
+    yield finish(n, "3d-polar-zenith")
+    n = base(3); station(n, "F0", dirs=("F1", "P"), dists=("P",)); station(n, "F1", dirs=("F0", "P"))
+    cl = netgen.Cluster("hdiff"); cl.obs.append(netgen.Obs("dh", "F0", "P", stdev=2.0)); cl.obs.append(netgen.Obs("dh", "P", "F2", stdev=2.0)); n.clusters.append(cl)
+    yield finish(n, "height-differences")
+    n = base(3)
+    cl = netgen.Cluster("vectors")
+    for f in ("F0", "F1"):
+        a, b = n.points[f], n.points["P"]
+        cl.vecs.append([f, "P", b.E - a.E, b.N - a.N, b.H - a.H, None, None])
+    cl.cov = dict(band=0, C=np.diag(np.full(6, 25.0)))
+    n.clusters.append(cl)
+    yield finish(n, "vectors")
+
+
 def gen_base(seed, i):
     rng = np.random.default_rng([seed, i, 606])
     dim = int(rng.choice([1, 2, 2, 3, 3]))
@@ -216,6 +286,13 @@ def run(tier, seed, only=None):
             alg_list = algs if tier == "thorough" else [algs[(i + vi) % 4]]
             for alg in alg_list:
                 jobs.append((i, vname, net, feats, alg))
+    # documented strategies for approximate coordinates, one at a time
+    for i in range(tier_n(tier, 6, 150)):
+        if only is not None:
+            break
+        rng = np.random.default_rng([seed, i, 6161])
+        for sname, snet in strategy_nets(rng):
+            jobs.append((100000 + i, "omitted-" + sname, snet, ["strategy"], algs[i % 4]))
     fr = netgen.Frame()
     # monotonicity: a sub-survey (random ~40 % of the observations dropped, possibly no longer determined) versus
     # the full survey: every point gama determines from the sub-survey must also be determined from the full one
@@ -292,13 +369,22 @@ def run(tier, seed, only=None):
         ck.case((net.kind, vname.rstrip("0123456789"), "+".join(sorted(feats)) or "plain", alg))
         if g.xml and g.xml["kind"] == "adjustment":
             ck.count("linearization iterations", g.xml["iterations"])
+        # which approximate-coordinate strategies actually produced coordinates (acord hook): coverage evidence
+        for e in g.trace:
+            if e.get("kind") == "acord":
+                got = (e["missing_xy_before"] - e["missing_xy_after"]) + (e["missing_z_before"] - e["missing_z_after"])
+                cand = e["candidates_xy"] + e["candidates_z"]
+                ck.count("acord:%s:%s" % (e["algorithm"], "solved-or-proposed" if (got or cand) else "ran"))
         if i < 2 and vname == "exact":
             ck.sample(dict(index=i, kind=net.kind, features=feats, points=len(net.points),
                            observations=sum(len(c.obs) for c in net.clusters)))
     ck.assumptions += ["the python observation model (netgen.model_value) follows the manual's definitions",
                        "omitted subsets restricted to chains of polar steps / levelled height differences from points "
                        "with coordinates (documented strategy)"]
+    # the check is inconclusive unless the documented strategies were actually exercised
     ck.minimum = dict(evaluations=tier_n(tier, 100, 3000), distinct=20)
+    ck.minimum["acord:AcordPolar:solved-or-proposed"] = 1
+    ck.minimum["acord:AcordHdiffs:solved-or-proposed"] = 1
     return ck.finish()
 
 
